@@ -42,6 +42,7 @@ pub fn gen_cgr_case(rng: &mut Rng, tier: &str, prop: &str, k: usize) -> Case {
         alpha_w: if k == 0 { [55, 35, 0, 0, 4, 6, 0] } else { [45, 20, 15, 8, 4, 6, 2] },
         min_len: 0,
         dup_pct: 4,
+            tab_desc_pct: 0,
     };
     let mut records = g.gen(rng);
     if k >= 6 {
